@@ -149,6 +149,13 @@ fn body(max_atoms: usize) -> impl Fn(&Ch) -> Run + Sync + Send {
     }
     let mut evals = 0;
     let mut outcome = Vec::new();
+    // a sibling root in another encoding, loaded by the same build before or
+    // after the module under test: nothing may carry over from one to the other
+    let sibling_first = ch.flag("sibling_root_first");
+    let mut sib_bytes: Vec<u8> = vec![0xFF, 0xFE];
+    for u in "{\"s\":\"é\"}".encode_utf16() {
+      sib_bytes.extend_from_slice(&u.to_le_bytes());
+    }
     for header in HEADERS {
       for is_file in [true, false] {
         for media in ["ts", "json"] {
@@ -172,14 +179,29 @@ fn body(max_atoms: usize) -> impl Fn(&Ch) -> Run + Sync + Send {
             None => loader.add(&spec, Entry::bytes(&content)),
             Some(c) => loader.add(&spec, Entry::with_headers(&content, &[("content-type", c)])),
           }
+          let sib_spec = if is_file { "file:///sib.json" } else { "https://x/sib.json" };
+          if is_file {
+            loader.add(sib_spec, Entry::bytes(&sib_bytes));
+          } else {
+            loader.add(sib_spec, Entry::with_headers(&sib_bytes, &[("content-type", "application/json; charset=utf-16le")]));
+          }
+          let roots = if sibling_first { vec![url(sib_spec), url(&spec)] } else { vec![url(&spec), url(sib_spec)] };
           let mut graph = ModuleGraph::new(GraphKind::All);
-          if let Err(e) = build_graph(&mut graph, vec![url(&spec)], &loader, BuildCfg::default(), ch) {
+          if let Err(e) = build_graph(&mut graph, roots, &loader, BuildCfg::default(), ch) {
             run.violate("build-did-not-finish", format!("{e:?}"), json!({"bytes": names}));
             continue;
           }
           evals += 1;
           let want = reference(&expect_src, *header, is_file);
-          let case = json!({"atoms": names, "bytes_hex": hex(&content), "charset_header": header, "specifier": spec});
+          let case = json!({"atoms": names, "bytes_hex": hex(&content), "charset_header": header, "specifier": spec, "sibling_root_first": sibling_first});
+          match (graph.try_get(&url(sib_spec)), reference(&sib_bytes, if is_file { None } else { Some("utf-16le") }, is_file)) {
+            (Ok(Some(Module::Json(j))), Want::Text(t)) if j.source.text.as_ref() == t.as_str() && t == "{\"s\":\"é\"}" => {}
+            (got, _) => run.violate(
+              "sibling-module-text-mismatch",
+              format!("the UTF-16LE sibling {sib_spec} became {:?}", got.map(|m| m.map(|m| m.source().map(|s| s.to_string()))).map_err(|e| e.to_string())),
+              case.clone(),
+            ),
+          }
           let entry = graph.try_get(&url(&spec));
           match (entry, &want) {
             (Err(e), Want::DecodeError) => {
@@ -290,7 +312,11 @@ fn body_deferred(max_atoms: usize) -> impl Fn(&Ch) -> Run + Sync + Send {
       names.push(ATOMS[a].0);
     }
     // a parsable module whose trailing comment carries the bytes under test
-    let mut content: Vec<u8> = b"export const v = 1;\n//".to_vec();
+    // (it imports a sibling file served as windows-1252: a second deferred
+    // content load in the same package, before or after this one)
+    let mut content: Vec<u8> = b"import \"./sib.ts\";\nexport const v = 1;\n//".to_vec();
+    let sib_content = "export const s = \"é\";\n".as_bytes().to_vec();
+    let sib_want = "export const s = \"Ã©\";\n";
     let lead_bom = ch.flag("leading_utf8_bom");
     if lead_bom {
       content = [&[0xEF, 0xBB, 0xBF][..], &content[..]].concat();
@@ -303,7 +329,7 @@ fn body_deferred(max_atoms: usize) -> impl Fn(&Ch) -> Run + Sync + Send {
       loader.add_text("https://x/root.ts", "import \"jsr:@s/a@1\";\n");
       let mut v = RegVersion::new("1.0.0", &[]);
       // the embedded module information is computed from the text as a UTF-8 reader sees it
-      v.files = vec![("/mod.ts".into(), content.clone())];
+      v.files = vec![("/mod.ts".into(), content.clone()), ("/sib.ts".into(), sib_content.clone())];
       v.exports = json!({".": "./mod.ts"});
       v.embed_module_graph = true;
       let p = RegPackage { name: "@s/a".into(), versions: vec![v], raw_meta: None };
@@ -312,12 +338,26 @@ fn body_deferred(max_atoms: usize) -> impl Fn(&Ch) -> Run + Sync + Send {
       if let Some(h) = header {
         loader.add(file_url, Entry::with_headers(&content, &[("content-type", &format!("application/typescript; charset={h}"))]));
       }
+      let sib_url = "https://jsr.io/@s/a/1.0.0/sib.ts";
+      loader.add(sib_url, Entry::with_headers(&sib_content, &[("content-type", "application/typescript; charset=windows-1252")]));
       *loader.cached_only.borrow_mut() = Some(Default::default());
       let mut graph = ModuleGraph::new(GraphKind::All);
       if build_graph(&mut graph, vec![url("https://x/root.ts")], &loader, BuildCfg::default(), ch).is_err() {
         continue;
       }
       run.evals += 1;
+      let sib_deferred = loader.log.borrow().iter().filter(|c| c.specifier.as_str() == sib_url).count() >= 2;
+      if sib_deferred {
+        match graph.try_get(&url(sib_url)) {
+          Ok(Some(Module::Js(js))) if js.source.text.as_ref() == sib_want => {}
+          other => run.violate(
+            "deferred-sibling-text-mismatch",
+            format!("the windows-1252 sibling became {:?}", other.map(|m| m.map(|m| m.source().map(|s| s.to_string()))).map_err(|e| e.to_string())),
+            json!({"atoms": names, "bytes_hex": hex(&content), "charset_header_of_mod_ts": header}),
+          ),
+        }
+        run.count("runs_with_two_deferred_content_loads", 1);
+      }
       let deferred = loader.log.borrow().iter().filter(|c| c.specifier.as_str() == file_url).count() >= 2;
       if !deferred {
         continue; // no embedded info for this text (not analysable): not the path under test
